@@ -143,6 +143,34 @@ def levels(topo, root, result, env, maxlevels=400):
     return out
 
 
+def _share(x, depth=0):
+    """Make x hold one of its nested instances twice (in place: the first element of a list / value of a dict is added again);
+    True if something was shared."""
+    if depth > 6 or x is None:
+        return False
+    if isinstance(x, list):
+        if x and not isinstance(x[0], (str, int, float, bool, type(None))):
+            x.append(x[0])
+            _share(x[0], depth + 1)
+            return True
+        return False
+    if isinstance(x, dict):
+        vals = [v for v in x.values() if not isinstance(v, (str, int, float, bool, type(None)))]
+        if vals:
+            x["shared_again"] = vals[0]
+            _share(vals[0], depth + 1)
+            return True
+        return False
+    if isinstance(x, tuple) and not hasattr(x, "_fields"):
+        return any(_share(e, depth + 1) for e in x)
+    if hasattr(x, "_fields"):
+        return any(_share(e, depth + 1) for e in x)
+    if hasattr(x, "__dict__") or hasattr(type(x), "__slots__"):
+        names = list(vars(x)) if hasattr(x, "__dict__") else [n for n in type(x).__slots__ if hasattr(x, n)]
+        return any(_share(getattr(x, n), depth + 1) for n in names)
+    return False
+
+
 EARLY = {"asserted": 0, "degraded_not_asserted": 0}
 
 
@@ -264,6 +292,20 @@ def observe_case(topo, root, variant, depths, events, meta, early=False, falsy=F
             lev(d, "marshal", {"k": "raised", "e": "RecursionError"})
         except Exception as e:
             lev(d, "marshal", {"k": "raised", "e": type(e).__name__})
+        # a finite value in which one instance sits in two places (a shared child, a flyweight leaf) is not circular: it
+        # marshals like the same value built from distinct objects
+        if d in (2, 3) and _share(res):
+            try:
+                w1 = with_deadline(10, M, res)
+                w2 = with_deadline(10, M, with_deadline(10, U, w1))
+                lev(d, "shared_instances", {"k": "ok", "r": {"k": "none", "cls": "NoneType"}},
+                    converted=(json.dumps(w1, sort_keys=True, default=list) == json.dumps(w2, sort_keys=True, default=list)))
+            except Deadline:
+                lev(d, "shared_instances", {"k": "raised", "e": "NonTermination"})
+            except RecursionError:
+                lev(d, "shared_instances", {"k": "raised", "e": "RecursionError"})
+            except Exception as e:
+                lev(d, "shared_instances", {"k": "raised", "e": type(e).__name__})
     env.dispose()
 
 
